@@ -236,3 +236,89 @@ Proof.
       cbn [translated i_res i_start i_end hshift hl_base]. rewrite Hstep, !Z.div_1_r.
       split; [exact Hid'|]. lia.
 Qed.
+
+(* ------------------------------------------------------------------ one data width throughout *)
+
+(* Decoder.add() refuses a subordinate of another data width (sparse is never passed) *)
+Lemma add_windows_dw (kids : kidmaps) : forall m k m',
+  wf_tree m -> Forall (fun x => wf_tree (snd x)) kids ->
+  Forall (fun x : wopt * option bool * mmap => snd (fst x) = None) kids ->
+  add_windows m k kids = Ok m' -> Forall (fun x => m_dw (snd x) = m_dw m) kids.
+Proof.
+  induction kids as [|[[o sp] w] kids IH]; cbn [add_windows]; intros m k m' Hm Hk Hs H; [constructor|].
+  apply bind_ok in H as (m1 & E1 & H). apply bind_ok in H as ([m2 rr] & E2 & H).
+  inversion Hk as [|? ? Hw Hk']; subst. inversion Hs as [|? ? Hs1 Hs']; subst. cbn [fst snd] in *. subst sp.
+  destruct (do_aligns_wf _ _ _ Hm E1) as [Hm1 C1].
+  apply core_fields in C1 as (Ca & Cd & Cl & Cr & Cs & Cw).
+  pose proof (wf_tree_eq m1) as [Hm1' _]. specialize (Hm1' Hm1) as [Hn1 HF1].
+  pose proof (wf_tree_node _ Hw) as Hnw.
+  destruct (add_window_wf _ _ _ _ _ _ _ _ Hn1 Hnw E2) as [Hn2 _].
+  destruct (add_window_shape _ _ _ _ _ _ _ _ Hn1 Hnw E2)
+    as (Ha2 & Hd2 & Hl2 & Hr2 & wn & Hw2 & Hid & Hstep & Hsp & _).
+  assert (Hm2 : wf_tree m2).
+  { apply wf_tree_eq. rewrite Hw2. split; [exact Hn2|]. apply Forall_app. split; [exact HF1|].
+    constructor; [|constructor]. cbn [snd]. apply wf_set_frozen. exact Hw. }
+  constructor.
+  - cbn [snd]. rewrite (Hsp eq_refl). exact Cd.
+  - pose proof (IH _ _ _ Hm2 Hk' Hs' H) as HI. eapply Forall_impl; [|exact HI].
+    cbv beta. intros x Hx. rewrite Hx, Hd2. exact Cd.
+Qed.
+
+Lemma dec_child_dw aw dw al subs m :
+  Forall (fun p : wopt * csrnode => map_good (snd p)) subs ->
+  csr_map (CsrDec aw dw al subs) = Ok m ->
+  forall j o cn, nth_error subs j = Some (o, cn) -> csr_dw cn = dw.
+Proof.
+  intros Hgood H j o cn Es. rewrite csr_map_dec in H.
+  apply bind_ok in H as (kids & Ek & H). apply bind_ok in H as (m0 & E0 & H).
+  destruct (map_kids_nth _ _ Ek) as [Hlen Hnth].
+  pose proof (new_map_wf _ _ _ _ E0) as H0.
+  destruct (new_map_fields _ _ _ _ E0) as (_ & Fd & _).
+  rewrite Forall_forall in Hgood.
+  assert (Hk : forall x, In x kids -> exists j o c, nth_error subs j = Some (o, c) /\
+                                       x = (o, None, snd x) /\ csr_map c = Ok (snd x)).
+  { intros x Hx. apply In_nth_error in Hx as [j' Hj].
+    assert (Hlt : (j' < length subs)%nat). { rewrite <- Hlen. apply nth_error_Some. congruence. }
+    destruct (nth_error subs j') as [[o' c]|] eqn:Es'; [|apply nth_error_None in Es'; lia].
+    destruct (Hnth _ _ _ Es') as (w & Hw & Hm). rewrite Hw in Hj. injection Hj as <-.
+    exists j', o', c. auto. }
+  assert (K1 : Forall (fun x : wopt * option bool * mmap => wf_tree (snd x)) kids).
+  { apply Forall_forall. intros x Hx. destruct (Hk x Hx) as (j' & o' & c & Es' & _ & Hm).
+    exact (proj1 (Hgood _ (nth_error_In _ _ Es') _ Hm)). }
+  assert (K2 : Forall (fun x : wopt * option bool * mmap => snd (fst x) = None) kids).
+  { apply Forall_forall. intros x Hx. destruct (Hk x Hx) as (_ & o' & _ & _ & Ex & _). rewrite Ex. reflexivity. }
+  pose proof (add_windows_dw kids _ _ _ H0 K1 K2 H) as Hdw. rewrite Forall_forall in Hdw.
+  destruct (Hnth _ _ _ Es) as (w & Hw & Hm).
+  pose proof (Hdw _ (nth_error_In _ _ Hw)) as E. cbn [snd] in E.
+  destruct (Hgood _ (nth_error_In _ _ Es) _ Hm) as (_ & _ & Hd & _). cbn [snd] in Hd. congruence.
+Qed.
+
+Lemma mk_cfg_dw dw regs ov c : Mux.mk_cfg dw regs ov = Some c -> Mux.c_dw c = dw.
+Proof.
+  unfold Mux.mk_cfg. destruct (Mux.shadow_size ov (filter Mux.r_rd regs)); [|discriminate].
+  destruct (Mux.shadow_size ov (filter Mux.r_wr regs)); [|discriminate]. intros [= <-]. reflexivity.
+Qed.
+
+Theorem csr_leaves_dw n : csr_dom n -> forall m h, csr_map n = Ok m -> csr_hw n = Ok h ->
+  forall L, In L (hw_leaves (csr_aw n) h) -> Mux.c_dw (hl_cfg L) = csr_dw n.
+Proof.
+  induction n as [aw dw al ops ov|aw dw al subs IH] using csrnode_ind'; intros Hdom m h Hm Hh L HL.
+  - cbn [csr_hw] in Hh. apply bind_ok in Hh as (m' & _ & Hh).
+    destruct (Mux.mk_cfg dw (map snd (mux_regs m' ops)) ov) as [c|] eqn:Ec; [|discriminate]. injection Hh as <-.
+    destruct HL as [<-|[]]. cbn [hl_cfg csr_dw]. exact (mk_cfg_dw _ _ _ _ Ec).
+  - apply csr_dom_dec in Hdom.
+    assert (Hg : Forall (fun p : wopt * csrnode => map_good (snd p)) subs).
+    { rewrite Forall_forall in *. intros p Hp. apply csr_map_good. exact (proj2 (Hdom p Hp)). }
+    rewrite csr_hw_dec, Hm in Hh. cbn [bind] in Hh. apply bind_ok in Hh as (hk & Ehk & Hh).
+    injection Hh as <-. cbn [csr_aw csr_dw] in *.
+    pose proof (dec_windows _ _ _ _ _ _ Hg Hdom Hm Ehk) as Hwin.
+    pose proof (dec_subs_windows _ _ _ _ _ _ Hg Hdom Hm Ehk) as Hsub.
+    apply hw_leaves_dec_In in HL as (w & ch & L' & Hp & HL' & ->).
+    apply Hsub in Hp as (wn & c & Hwc & -> & Hk).
+    destruct (Hwin _ _ Hwc) as (j & o & cn & wj & hj & Es & Hidw & Hmw & -> & Hstep & Hhj & Hhw & Haw & _).
+    rewrite Hidw, Nat2Z.id, Hhj in Hk. injection Hk as _ <-.
+    cbn [CsrDecoder.s_aw] in HL'. rewrite frozen_aw, Haw in HL'.
+    pose proof (nth_error_In _ _ Es) as Hin. rewrite Forall_forall in IH, Hdom.
+    cbn [hshift hl_cfg]. rewrite (IH _ Hin (proj2 (Hdom _ Hin)) _ _ Hmw Hhw L' HL'). cbn [snd].
+    exact (dec_child_dw _ _ _ _ _ Hg Hm _ _ _ Es).
+Qed.
